@@ -49,4 +49,56 @@ RIME_DLL extern std::atomic<TaskLogHook> task_log_hook;
 
 #endif  // RIME_VERIF
 
+// ---- deployment decisions / crash points (C12, C13) -----------------------
+// Self-contained: its own guard, no dependency on the section above.
+#ifndef RIME_VERIF_HOOKS_DEPLOY_
+#define RIME_VERIF_HOOKS_DEPLOY_
+
+#ifdef RIME_VERIF
+
+#include <string>
+#include <rime_api.h>
+
+namespace rime {
+namespace verif {
+
+// reports a staleness decision taken by the deployer, e.g.
+// ("rebuild_table:luna_pinyin", 1) or ("config_needs_update:default.yaml", 0).
+using DecisionHook = void (*)(const char* name, long value);
+// called at named points inside the file builders; the hook may _exit().
+using CrashPointHook = void (*)(const char* tag);
+
+// defined in dict/dict_compiler.cc
+RIME_DLL extern DecisionHook decision_hook;
+// defined in dict/mapped_file.cc
+RIME_DLL extern CrashPointHook crashpoint_hook;
+
+}  // namespace verif
+}  // namespace rime
+
+#define RIME_VERIF_DECISION(name, value)                                \
+  do {                                                                  \
+    if (auto rime_verif_d_ = ::rime::verif::decision_hook)              \
+      rime_verif_d_(std::string(name).c_str(), (long)(value));          \
+  } while (0)
+
+#define RIME_VERIF_CRASHPOINT(tag)                                      \
+  do {                                                                  \
+    if (auto rime_verif_c_ = ::rime::verif::crashpoint_hook)            \
+      rime_verif_c_(tag);                                               \
+  } while (0)
+
+#else  // RIME_VERIF
+
+#define RIME_VERIF_DECISION(name, value) \
+  do {                                   \
+  } while (0)
+#define RIME_VERIF_CRASHPOINT(tag) \
+  do {                             \
+  } while (0)
+
+#endif  // RIME_VERIF
+
+#endif  // RIME_VERIF_HOOKS_DEPLOY_
+
 #endif  // RIME_VERIF_HOOKS_H_
